@@ -53,6 +53,9 @@ func parseArgs(s string) (map[string]string, error) {
 		m := strings.Split(arg, "=")
 		switch len(m) {
 		case 2:
+			if m[1] == "" {
+				return nil, fmt.Errorf("failed to parse arg string: %q", arg)
+			}
 			argMap[strings.ToUpper(m[0])] = m[1]
 		case 1:
 			argMap[strings.ToUpper(m[0])] = ""
